@@ -80,12 +80,12 @@ theorem digit_script_invariant (c : Char) (h : 0x30 ≤ c.toNat ∧ c.toNat ≤ 
 /-- (e) redundant parentheses: a grouping evaluates to exactly what its content evaluates to -/
 theorem grouping_transparent (P : Platform) (f : Nat) (e : Expr) (line env : Nat) (repl : Bool) (σ : Store) (h0 : σ.hadError = false) :
     evalE P (f + 1) (.grouping e line) env repl σ = evalE P f e env repl σ := by
-  rw [evalE]; simp [h0]
+  rw [evalE]; simp [guardErr, ER.seq, Res.bind, h0]
 
 /-- (f) never-executed code: the untaken arm of a conditional leaves no trace -/
 theorem dead_branch_invisible (P : Platform) (f : Nat) (c : Expr) (s : Stmt) (env : Nat) (repl : Bool) (σ σ1 : Store) (cv : Val)
     (h0 : σ.hadError = false) (hc : evalE P f c env repl σ = .ok (cv, .none) σ1) (ht : truthy cv = false) :
     evalS P (f + 1) (.ifS c s none) env repl σ = .ok (.nil, .none) σ1 := by
-  rw [evalS]; simp only [h0, hc]; simp [ht, nilOk]
+  rw [evalS]; simp only [guardErr, ER.seq, Res.bind, h0, hc]; simp [guardErr, ER.seq, Res.bind, ht, nilOk]
 
 end Borno.Props.C18
